@@ -75,6 +75,9 @@ type bufferedUpdate struct {
 	updates   *ovsdb.TableUpdates
 	updates2  *ovsdb.TableUpdates2
 	lastTxnID string
+	// generation of the connection that delivered the update: an update is
+	// only ever replayed on that connection
+	generation int64
 }
 
 type epInfo struct {
@@ -703,7 +706,7 @@ func (o *ovsdbClient) updateFrom(generation int64, params []json.RawMessage, rep
 		return nil
 	}
 	if db.deferUpdates {
-		db.deferredUpdates = append(db.deferredUpdates, &bufferedUpdate{&updates, nil, ""})
+		db.deferredUpdates = append(db.deferredUpdates, &bufferedUpdate{&updates, nil, "", generation})
 		db.cacheMutex.Unlock()
 		return nil
 	}
@@ -754,7 +757,7 @@ func (o *ovsdbClient) update2(generation int64, params []json.RawMessage, reply 
 		return nil
 	}
 	if db.deferUpdates {
-		db.deferredUpdates = append(db.deferredUpdates, &bufferedUpdate{nil, &updates, ""})
+		db.deferredUpdates = append(db.deferredUpdates, &bufferedUpdate{nil, &updates, "", generation})
 		db.cacheMutex.Unlock()
 		return nil
 	}
@@ -811,7 +814,7 @@ func (o *ovsdbClient) update3(generation int64, params []json.RawMessage, reply 
 		return nil
 	}
 	if db.deferUpdates {
-		db.deferredUpdates = append(db.deferredUpdates, &bufferedUpdate{nil, &updates, lastTransactionID})
+		db.deferredUpdates = append(db.deferredUpdates, &bufferedUpdate{nil, &updates, lastTransactionID, generation})
 		db.cacheMutex.Unlock()
 		return nil
 	}
@@ -1094,6 +1097,9 @@ func (o *ovsdbClient) monitor(ctx context.Context, cookie MonitorCookie, reconne
 		defer db.cacheMutex.Unlock()
 		db.deferUpdates = false
 		for _, update := range db.deferredUpdates {
+			if update.generation != atomic.LoadInt64(&o.connGeneration) {
+				continue // left over from a connection that has been replaced
+			}
 			if update.updates != nil {
 				if err := db.cache.Populate(*update.updates); err != nil {
 					o.logger.V(3).Error(err, "applying deferred update")
@@ -1200,6 +1206,9 @@ func (o *ovsdbClient) monitor(ctx context.Context, cookie MonitorCookie, reconne
 	deferred := db.deferredUpdates
 	db.deferredUpdates = make([]*bufferedUpdate, 0)
 	for _, update := range deferred {
+		if update.generation != atomic.LoadInt64(&o.connGeneration) {
+			continue // left over from a connection that has been replaced
+		}
 		if update.updates != nil {
 			err = db.cache.Populate(*update.updates)
 		}
